@@ -187,7 +187,7 @@ fn gen(seed: u64) -> Scn {
         _ => (3, 12),
     };
     let nhosts = r.range(1, 4) as usize;
-    let mut lifetimes = vec![];
+    let mut lifetimes: Vec<Lifetime> = vec![];
     let mut t = r.range(0, 6);
     for _ in 0..r.range(1, 3) {
         let bind_at = t;
@@ -217,6 +217,26 @@ fn gen(seed: u64) -> Scn {
             hold: max_ms + 4 * tick_ms + r.range(0, 20),
         });
     }
+    // "queue pressure" shape: the listener lets requests pile up before it accepts,
+    // some of the waiting connectors give up meanwhile, a late request joins the queue
+    if r.chance(0.25) {
+        let first_gap = r.range(35, 80);
+        lifetimes = vec![Lifetime { bind_at: 0, loopback_bind: false, accepts: std::iter::once(first_gap).chain((0..7).map(|_| r.pick_copy(&[0u64, 0, 1, 3]))).collect(), drop_at: first_gap + 60 }];
+        conns.clear();
+        let k = r.range(3, 5);
+        for i in 0..k {
+            let give_up = i < 2 && r.chance(0.7);
+            conns.push(Conn {
+                host: r.usize_below(nhosts),
+                target: Target::Listener,
+                at: 2 + 3 * i + r.range(0, 2),
+                timeout: if give_up { Some(r.range(5, first_gap / 2)) } else { None },
+                hold: max_ms + 4 * tick_ms + r.range(0, 20),
+            });
+        }
+        conns.push(Conn { host: r.usize_below(nhosts), target: Target::Listener, at: first_gap - r.range(2, 10).min(first_gap - 1), timeout: None, hold: max_ms + 4 * tick_ms + 5 });
+    }
+    let horizon = horizon.max(lifetimes.last().map(|l| l.drop_at + 10).unwrap_or(0));
     let fault = if nhosts >= 2 {
         match r.below(7) {
             0 => Fault::Partition { host: r.range(1, nhosts as u64 - 1) as usize, at: r.range(0, horizon / tick_ms), len: r.range(1, 40), oneway: r.below(3) as u8 },
@@ -731,7 +751,7 @@ pub fn run(ctx: &Ctx) -> ! {
         let report = vcore::run_single(ctx, move |_| scenario(gen(seed)));
         vcore::finish(ctx, report, fin());
     }
-    let n = ctx.pick(8000u64, 250_000);
+    let n = ctx.pick(30_000u64, 500_000);
     let c2 = ctx.clone();
     let report = vcore::run_parallel(
         ctx,
